@@ -397,6 +397,8 @@ impl ConnectionManager {
                 .cloned()
                 .collect()
         };
+        #[cfg(bmwill_anemo_verif)]
+        let eligible = crate::verif::order_eligible(eligible);
 
         // Limit the number of outstanding connections attempting to be established
         let number_to_dial = std::cmp::min(
